@@ -63,12 +63,18 @@ var (
 	anyTS       *schema.TypeSystem
 	BindAnyMap  schema.TypedPrototype
 	BindAnyList schema.TypedPrototype
+	// the same containers with non-nullable Any members (the member slot is a datamodel.Node, not a pointer to
+	// one): they cannot hold a null member, so Build falls back to the nullable ones for values that have one
+	BindAnyMapNN  schema.TypedPrototype
+	BindAnyListNN schema.TypedPrototype
 )
 
 func init() {
 	ts, err := ipld.LoadSchemaBytes([]byte(`
 		type AnyMap {String:nullable Any}
 		type AnyList [nullable Any]
+		type AnyMapNN {String:Any}
+		type AnyListNN [Any]
 	`))
 	if err != nil {
 		panic(err)
@@ -76,6 +82,36 @@ func init() {
 	anyTS = ts
 	BindAnyMap = bindnode.Prototype(nil, ts.TypeByName("AnyMap"))
 	BindAnyList = bindnode.Prototype(nil, ts.TypeByName("AnyList"))
+	BindAnyMapNN = bindnode.Prototype(nil, ts.TypeByName("AnyMapNN"))
+	BindAnyListNN = bindnode.Prototype(nil, ts.TypeByName("AnyListNN"))
+}
+
+// nnFallback replaces a non-nullable Any container prototype by its nullable twin when the root value has a
+// null member (which {String:Any} / [Any] cannot hold).
+func nnFallback(v val.V, np datamodel.NodePrototype) datamodel.NodePrototype {
+	hasNull := false
+	for _, e := range v.Ents {
+		hasNull = hasNull || e.V.K == val.Null
+	}
+	for _, it := range v.Items {
+		hasNull = hasNull || it.K == val.Null
+	}
+	if !hasNull {
+		return np
+	}
+	switch np {
+	case datamodel.NodePrototype(BindAnyMapNN):
+		return BindAnyMap
+	case datamodel.NodePrototype(BindAnyListNN):
+		return BindAnyList
+	}
+	if np == BindAnyMapNN.Representation() {
+		return BindAnyMap.Representation()
+	}
+	if np == BindAnyListNN.Representation() {
+		return BindAnyList.Representation()
+	}
+	return np
 }
 
 // Impl names a node implementation able to hold arbitrary values.
@@ -86,6 +122,7 @@ const (
 	BasicKind Impl = "basic.kind" // the kind-specific basicnode prototype for the root kind
 	BindAnyC  Impl = "bind.anycontainer"
 	BindAnyR  Impl = "bind.anycontainer.repr"
+	BindAnyNN Impl = "bind.anycontainer.nonnullable"
 )
 
 var Impls = []Impl{BasicAny, BasicKind, BindAnyC, BindAnyR}
@@ -122,6 +159,14 @@ func ProtoFor(impl Impl, root val.Kind) datamodel.NodePrototype {
 		// a bare top-level Any binding is not a documented use of bindnode; scalars roots
 		// fall back to basicnode
 		return basicnode.Prototype.Any
+	case BindAnyNN:
+		switch root {
+		case val.Map:
+			return BindAnyMapNN
+		case val.List:
+			return BindAnyListNN
+		}
+		return basicnode.Prototype.Any
 	case BindAnyR:
 		switch root {
 		case val.Map:
@@ -141,7 +186,7 @@ func Build(v val.V, p *Prog, np datamodel.NodePrototype) (n datamodel.Node, err 
 			n, err = nil, fmt.Errorf("PANIC while building: %v", r)
 		}
 	}()
-	nb := np.NewBuilder()
+	nb := nnFallback(v, np).NewBuilder()
 	if err := Assemble(nb, v, p, 0); err != nil {
 		return nil, err
 	}
@@ -154,7 +199,7 @@ func buildNoForeignRoot(v val.V, p *Prog, np datamodel.NodePrototype) (n datamod
 			n, err = nil, fmt.Errorf("PANIC while building: %v", r)
 		}
 	}()
-	nb := np.NewBuilder()
+	nb := nnFallback(v, np).NewBuilder()
 	if err := assemble(nb, v, p, 0, false); err != nil {
 		return nil, err
 	}
